@@ -22,14 +22,16 @@ for d in sorted(glob.glob(os.path.join(ROOT, "seeded", "C*-*"))):
     results = {}
     for r in sorted(glob.glob(os.path.join(d, "result-seed*.txt"))):
         seed = re.search(r"seed(\d+)", r).group(1)
-        results["quick check of %s, VERIF_SEED=%s" % (prop, seed)] = open(r).read().strip()
+        results["quick check of %s, VERIF_SEED=%s" % (prop, seed)] = open(r, errors="replace").read().strip()
     extra = os.path.join(d, "other-checks.txt")
     if os.path.exists(extra):
         results["other checks"] = open(extra).read().strip().splitlines()
-    round_ = "2" if name.count("-") and name.split("-")[1].startswith("r2") else "1"
+    m_round = re.search(r"-r(\d+)-", name)
+    round_ = int(m_round.group(1)) if m_round else 1
     meta = {
         "id": name,
         "property_broken": prop,
+        "round": round_,
         "origin": "independent sub-agent given only the property text and its own scratch git worktree of /repo (nothing from /verif)",
         "files_touched": files,
         "needs_to_manifest": needs,
@@ -46,7 +48,7 @@ for d in sorted(glob.glob(os.path.join(ROOT, "seeded", "C*-*"))):
     }
     json.dump(meta, open(os.path.join(d, "meta.json"), "w"), indent=1)
     caught = [v for v in results.values() if isinstance(v, str)]
-    status = "caught" if caught and all(c.startswith("CAUGHT") for c in caught) else ("MISSED (see DESIGN.md)" if any(c.startswith("MISSED") for c in caught) else "?")
+    status = "caught" if caught and all(c.startswith("CAUGHT") for c in caught) else ("MISSED by its own property's check (see other checks in meta.json / DESIGN.md 8.5)" if any(c.startswith("MISSED") for c in caught) else ("INCONCLUSIVE (hang / watchdog, exit 2; see DESIGN.md 8.5)" if any(c.startswith("INCONCLUSIVE") for c in caught) else "?"))
     rows.append((name, ", ".join(files), status, "; ".join(c[:90] for c in caught[:1])))
 with open(os.path.join(ROOT, "seeded", "RESULTS.md"), "w") as f:
     f.write("# Seeded changes and which quick check catches them\n\n")
